@@ -19,7 +19,8 @@ from common import VERIF, coq_list, coq_N, coq_bool, coq_option, stdlib_files
 
 LEVEL = 'proof'
 ASSUMPTIONS = [
-    'no_locals_call: the theorems assume no read of the identifier `locals` (locals() marks every visible local as used, linter.py:62-65); for files that read it only "nothing else is reported" is evaluated',
+    'no_locals_call, per scope: the theorems assume no read of the identifier `locals` IN THE BINDING\'S OWN SCOPE (locals() marks the plain names of the calling scope, linter.py:62-65); bindings of a scope that calls locals() get only "nothing else is reported", every other binding of the file is judged by the rule in full',
+    'scope_attr_ok: the `scope` attribute of a plain name object is the scope owning its binding (Flow.add_name) and MultiName/RuntimeName have none; hypothesis of the link lemma, exercised by modules with a locals() call next to multi-path bindings of other scopes',
     'rows are keyed by identifier (row_keyed): every name object marked by use_name for a read of x is named x; checked on every run by recording use_name calls, proved nowhere (it is a fact about scope.py Flow.names/MergedDict)',
     'the binding records (kind, owner scope kind, parent scope kind, global-declared, position) come from the harness\'s own syntactic pass over CPython\'s ast; CPython 3.12 parser positions are trusted on ASCII lines',
     'a method is a def/lambda whose enclosing scope (comprehensions do not count) is a class; comprehension variables belong to the enclosing def/lambda/class/module; "from __future__" means ImportedName.module == "__future__"',
@@ -42,9 +43,12 @@ ODD_NEWLINES = '\x0b\x0c\x1c\x1d\x1e\x85\u2028\u2029'
 # ------------------------------------------------------------------------------------------------
 
 class _Scope(object):
+    _n = 0
+
     def __init__(self, kind, parent):
         self.kind = kind
         self.parent = parent
+        self.id = 0                   # set by SyntaxPass.new_scope
         self.globals = set()          # declared `global` anywhere in the scope (Python's meaning)
         self.globals_seen = set()     # ... textually before the current statement
 
@@ -59,15 +63,23 @@ class SyntaxPass(object):
         self.text = text
         self.bindings = []
         self.reads = set()
+        self.nscopes = 0
+        self.locals_scopes = set()     # ids of the scopes in which the identifier `locals` is loaded
         self.skipped = {}              # constructs outside the fragment (not bindings for supp)
         self.line_off = [0]
         for ln in text.split('\n'):
             self.line_off.append(self.line_off[-1] + len(ln) + 1)
-        self.module = _Scope('module', None)
+        self.module = self.new_scope('module', None)
         self.collect_globals(tree.body, self.module)
         self.stmts(tree.body, self.module)
 
     # -- helpers -------------------------------------------------------------------------------
+    def new_scope(self, kind, parent):
+        sc = _Scope(kind, parent)
+        sc.id = self.nscopes
+        self.nscopes += 1
+        return sc
+
     def skip(self, what):
         self.skipped[what] = self.skipped.get(what, 0) + 1
 
@@ -75,7 +87,7 @@ class SyntaxPass(object):
         self.bindings.append({
             'kind': kind, 'own': scope.kind, 'parent': scope.parent.kind if scope.parent else None,
             'name': name, 'module': module, 'glob': name in scope.globals,
-            'gseen': name in scope.globals_seen, 'line': line, 'col': col})
+            'gseen': name in scope.globals_seen, 'scope': scope.id, 'line': line, 'col': col})
 
     def collect_globals(self, body, scope):
         """`global` declarations of this scope (not of nested def/class/lambda)."""
@@ -126,7 +138,7 @@ class SyntaxPass(object):
         for x in allargs:
             if x.annotation is not None:
                 self.expr(x.annotation, scope)
-        inner = _Scope(kind, scope)
+        inner = self.new_scope(kind, scope)
         for x in allargs:
             self.add('param', inner, x.arg, x.lineno, x.col_offset)
         return inner
@@ -151,7 +163,7 @@ class SyntaxPass(object):
                 self.skip('type_params')
             line, col = self.name_token(s, s.name)
             self.add('class', scope, s.name, line, col)
-            inner = _Scope('class', scope)
+            inner = self.new_scope('class', scope)
             self.collect_globals(s.body, inner)
             self.stmts(s.body, inner)
         elif isinstance(s, ast.Assign):
@@ -255,6 +267,8 @@ class SyntaxPass(object):
         if isinstance(e, ast.Name):
             if isinstance(e.ctx, ast.Load):
                 self.reads.add(e.id)
+                if e.id == 'locals':
+                    self.locals_scopes.add(scope.id)
         elif isinstance(e, ast.Lambda):
             inner = self.func(e, scope, 'lambda')
             self.expr(e.body, inner)
@@ -286,7 +300,7 @@ def analyse(text):
     """-> (bindings, read identifiers, skipped constructs). Raises SyntaxError/ValueError."""
     tree = ast.parse(text)
     p = SyntaxPass(text, tree)
-    return p.bindings, p.reads, p.skipped
+    return p.bindings, p.reads, p.skipped, p.locals_scopes
 
 
 # ------------------------------------------------------------------------------------------------
@@ -384,7 +398,7 @@ def evaluate(text, filename, project):
     -> dict(status, bindings, reads, entries, problems, k3) ; problems = list of (what, detail)."""
     out = {'status': 'ok', 'problems': [], 'k3': []}
     try:
-        bindings, reads, skipped = analyse(text)
+        bindings, reads, skipped, lscopes = analyse(text)
     except SyntaxError:
         out['status'] = 'syntax-error'
         return out
@@ -392,23 +406,26 @@ def evaluate(text, filename, project):
         out['status'] = 'pass-failed:%s' % e
         return out
     out['skipped'] = skipped
-    # hypothesis no_locals_call: when `locals` is read, only "nothing else is reported" is evaluated
-    out['locals'] = uses_locals = 'locals' in reads
+    # hypothesis no_locals_call, per scope: a locals() call concerns only the bindings of the scope it
+    # occurs in; every other binding of the file is judged by the rule in full
+    out['locals_scopes'] = lscopes
     entries, marked, err = run_lint(text, filename, project)
     if err:
         out['status'] = 'lint-raised:' + err
         return out
     out.update(bindings=bindings, reads=reads, entries=entries)
     unread = [b for b in bindings if b['name'] not in reads]
-    # expected multiset on never-read identifiers (in the stated domain)
-    exp = {}
+    # expected multisets on never-read identifiers (in the stated domain):
+    #   exp = must be reported; opt = in a scope that calls locals(): may be reported or not
+    exp, opt = {}, {}
     for b in unread:
         if not in_domain(b):
             out['k3'].append(b)
             continue
         e = expected_entry(b)
         if e is not None:
-            exp[e] = exp.get(e, 0) + 1
+            d = opt if b['scope'] in lscopes else exp
+            d[e] = d.get(e, 0) + 1
     act = {}
     k3pos = {(b['name'], b['line'], b['col']) for b in out['k3']}
     for e in entries:
@@ -419,16 +436,20 @@ def evaluate(text, filename, project):
             continue                     # a repaired tree reports it: that is what the rule asks for
         act[e] = act.get(e, 0) + 1
     for e in sorted(set(exp) | set(act)):
-        ne, na = exp.get(e, 0), act.get(e, 0)
-        if na < ne and not uses_locals:
-            out['problems'].append(('missing', 'never-read binding not reported: expected %r x%d, got x%d' % (e, ne, na)))
-        elif na > ne:
-            out['problems'].append(('extra', 'reported as unused but the rule does not ask for it (or duplicate / wrong name, kind or position): %r x%d, expected x%d' % (e, na, ne)))
-    # link-lemma hypothesis: whatever use_name marked is named like some read identifier
-    if marked is not None and not uses_locals:
-        bad = sorted({m for m in marked if m is not None and m not in reads})
+        ne, no, na = exp.get(e, 0), opt.get(e, 0), act.get(e, 0)
+        if na < ne:
+            out['problems'].append(('missing', 'never-read binding not reported: expected %r x%d, got x%d%s' % (
+                e, ne, na, ' (a locals() call in ANOTHER scope must not mark it)' if lscopes else '')))
+        elif na > ne + no:
+            out['problems'].append(('extra', 'reported as unused but the rule does not ask for it (or duplicate / wrong name, kind or position): %r x%d, expected x%d' % (e, na, ne + no)))
+    # link-lemma hypothesis: whatever use_name marked is named like some read identifier, or is a
+    # binding of a scope that calls locals()
+    if marked is not None:
+        allowed = {b['name'] for b in bindings if b['scope'] in lscopes}
+        bound = {b['name'] for b in bindings}
+        bad = sorted({m for m in marked if m in bound and m not in reads and m not in allowed})
         if bad:
-            out['problems'].append(('row-key', 'use_name marked names that are never read in the file: %r' % bad[:5]))
+            out['problems'].append(('row-key', 'use_name marked names that are neither read in the file nor bound in a scope calling locals(): %r' % bad[:5]))
     out['marked_checked'] = marked is not None
     return out
 
@@ -445,11 +466,11 @@ def chars(s):
 
 
 def binding_term(b):
-    return '(mkB %s %s %s %s %s %s %s %s %s)' % (
+    return '(mkB %s %s %s %s %s %s %s %s%%nat %s %s)' % (
         KINDS[b['kind']], SKINDS[b['own']],
         coq_option(SKINDS[b['parent']] if b['parent'] else None),
         chars(b['name']), chars(b['module']), coq_bool(b['glob']), coq_bool(b['gseen']),
-        coq_N(b['line']), coq_N(b['col']))
+        min(b['scope'], 4999), coq_N(b['line']), coq_N(b['col']))
 
 
 def rep_term(e):
@@ -477,10 +498,17 @@ Definition check_ood (c : binding * option rep) : bool :=
       || orep_eqb (option_map (mk_rep b) (rule b false)) obs
   end.
 
-(* per file: (never-read bindings, W01/W02 entries lint produced for never-read identifiers) *)
-Definition check_file (c : list binding * list rep) : bool :=
+(* per file: (never-read bindings, scopes with a locals() call, W01/W02 entries lint produced for
+   never-read identifiers outside those scopes).  Each locals() call sees every binding as a plain name
+   carrying its own scope; the model must mark exactly the bindings of the calling scope. *)
+Fixpoint visible_from (n : nat) (bs : list binding) : list (option nat * list alt) :=
+  match bs with [] => [] | b :: r => (Some (b_scope b), [ABind n]) :: visible_from (Datatypes.S n) r end.
+Definition check_file (c : list binding * list nat * list rep) : bool :=
   match c with
-  | (bs, obs) => same_reps (map snd (lint_unused bs [])) obs && forallb wf bs
+  | (bs, lscopes, obs) =>
+      let vis := visible_from 0 bs in
+      let reads := map (fun sc => mkRd locals_name sc (Some [AOther]) false true vis) lscopes in
+      same_reps (map snd (lint_unused bs reads)) obs && forallb wf bs
   end.
 '''
 
@@ -501,15 +529,16 @@ class Gen(object):
         self.p_unread = p_unread
         self.unread_pool = []
         self.read_pool = []
-        self.use_locals = rng.random() < 0.08
+        self.use_locals = rng.random() < 0.3
+        self.p_reuse = rng.choice([0.03, 0.08, 0.2])
 
     def ident(self):
         """-> (identifier, will_be_read)"""
         r = self.rng
         read = r.random() >= self.p_unread
         pool = self.read_pool if read else self.unread_pool
-        if pool and r.random() < 0.06:
-            return r.choice(pool), read
+        if pool and r.random() < self.p_reuse:
+            return r.choice(pool), read      # the same identifier bound again, here or in another scope
         self.n += 1
         shape = r.choice(['zq%d', 'zq%d', 'zq%d', 'zq%d', 'Zq%d', 'zq%d_', '_zq%d', '__zq%d', '_%d_', 'z_%d'])
         nm = shape % self.n
@@ -637,8 +666,14 @@ class Gen(object):
             choices += ['global_mod']
         if sk == 'function' and is_async:
             choices += ['asyncfor', 'asyncwith']
-        if sk == 'function' and self.use_locals:
+        if self.use_locals and (sk == 'function' or r.random() < 0.15):
             choices += ['locals']
+        if not simple and depth < 4:
+            choices += ['global_shadow', 'multipath', 'multipath']
+        else:
+            choices += ['multipath']
+        if self.use_locals:
+            choices += ['multipath', 'multipath']
         k = r.choice(choices)
         if k == 'assign':
             t, names = self.target()
@@ -776,7 +811,49 @@ class Gen(object):
                 return [ind + '%s = %s' % (nm, e)] + self.reads_of(ind, [(nm, rd)])
             return [ind + r.choice(['%s', 'zqfn(key=%s)', '[%s]']) % e]
         if k == 'locals':
-            return [ind + 'zqfn(locals())']
+            return [ind + r.choice(['zqfn(locals())', 'zqfmt % locals()', 'zqd = dict(locals())'])]
+        if k == 'multipath':
+            # the same identifier bound on alternative paths (its row is a MultiName after the join)
+            nm, rd = self.ident()
+            binders = ['import %s', 'import zqalt as %s', 'from zqmod import %s', 'from zqmod import zqm as %s',
+                       '%s = None', 'import %s.sub', 'def %s(): pass']
+            a, b = r.choice(binders) % nm, r.choice(binders) % nm
+            f = r.random()
+            if f < 0.4:
+                out = [ind + 'try:', i2 + a, ind + 'except ImportError:', i2 + b]
+            elif f < 0.8:
+                out = [ind + 'if zqc:', i2 + a, ind + 'else:', i2 + b]
+            else:
+                out = [ind + 'if zqc:', i2 + a, ind + 'elif zqd:', i2 + b, ind + 'else:', i2 + r.choice(binders) % nm]
+            return out + self.reads_of(ind, [(nm, rd)])
+        if k == 'global_shadow':
+            # an identifier declared global in one function and bound as a plain local / parameter of the
+            # functions nested in it (a global declaration is not inherited), and the converse
+            nm, rd = self.ident()
+            self.n += 4
+            f_, g_, k_, c_ = ['zqf%d' % (self.n - j) for j in range(4)]
+            i3 = i2 + '    '
+            if r.random() < 0.7:
+                out = [ind + 'def %s():' % f_, i2 + 'global %s' % nm,
+                       i2 + r.choice(['%s = 0', 'import %s', 'def %s(): pass', 'for %s in (): pass']) % nm]
+                inner = [[i2 + 'def %s(%s): pass' % (g_, nm)],
+                         [i2 + 'def %s(zqa, *%s): pass' % (g_, nm)],
+                         [i2 + 'zqh = lambda %s: 0' % nm],
+                         [i2 + 'zqh = lambda: [0 for %s in ()]' % nm],
+                         [i2 + 'def %s():' % k_, i3 + '%s = 2' % nm],
+                         [i2 + 'def %s():' % k_, i3 + 'import %s' % nm],
+                         [i2 + 'def %s():' % k_, i3 + 'for %s in (): pass' % nm],
+                         [i2 + 'class %s:' % c_, i3 + '%s = 3' % nm, i3 + 'def zqm(self, %s): pass' % nm]]
+                r.shuffle(inner)
+                for blk in inner[:r.randint(1, 4)]:
+                    out += blk
+            else:
+                out = [ind + 'def %s():' % f_, i2 + r.choice(['%s = 0', 'import %s', 'with zqctx() as %s: pass']) % nm,
+                       i2 + 'def %s():' % g_, i3 + 'global %s' % nm, i3 + r.choice(['%s = 1', 'import %s']) % nm,
+                       i2 + 'def %s(%s): pass' % (k_, nm)]
+            if rd:
+                out += self.use(i2, nm)
+            return out
         if k == 'noise':
             return self.noise(ind) or [ind + 'pass']
         if k == 'def':
@@ -854,6 +931,10 @@ class Gen(object):
                     parts.append(f)
             out.insert(0, 'from __future__ import ' + ', '.join(parts))
         out += self.body('module', 0, '')
+        if self.use_locals and r.random() < 0.6:
+            # a function whose locals() call sees every module-level name
+            self.n += 1
+            out += ['def zqsnap%d(zqp):' % self.n, '    zqv = zqp', '    return locals()']
         return '\n'.join(out) + '\n'
 
 
@@ -924,6 +1005,15 @@ HAND = [
     'from .a import b, a\n',
     'from a import b as c;import c\n',
     'from zq_nosuch import*\nimport y\n',
+    # a locals() call concerns only its own scope (multi-path module-level imports stay reportable)
+    'try:\n    import json\nexcept ImportError:\n    import pickle as json\n\nif len("x"):\n    import marshal as ser\nelse:\n    import shelve as ser\n\nimport os\n\n\ndef snapshot():\n    return locals()\n',
+    'def f():\n    if c:\n        x = 1\n    else:\n        x = 2\n    y = 3\ndef g():\n    z = 4\n    return locals()\nclass K:\n    import os\n    def m(self):\n        w = 5\n        return lambda: locals()\n',
+    'import os\nif c:\n    import a as x\nelse:\n    import b as x\nlocals()\ndef f(p):\n    q = 1\n',
+    # a global declaration is not inherited by nested scopes
+    'def configure(items):\n    global registry\n    registry = {}\n\n    def reset():\n        registry = []\n        return items\n\n    def update(registry):\n        return items\n\n    take = lambda registry: items\n    return reset, update, take\n',
+    'def f():\n    global X\n    X = 1\n    def g(X): pass\n    h = lambda X: 0\n    def k():\n        X = 2\n    class C:\n        X = 3\n        def m(self, X): pass\n',
+    'def f():\n    X = 1\n    def g():\n        global X\n        X = 2\n    def k(X): pass\n',
+    'X = 0\nclass A:\n    X = 1\n    def m(self):\n        X = 2\n        def n():\n            nonlocal X\n            X = 3\n        lambda X: 0\n',
 ]
 
 
@@ -948,7 +1038,7 @@ def check_known_k3(ctx, project):
     kf = os.path.join(VERIF, 'corpus', 'C10', 'known_%s.json' % FINDING_ID)
     if os.path.exists(kf):
         text = json.load(open(kf))['source']
-    bindings, reads, _ = analyse(text)
+    bindings, reads, _, _ls = analyse(text)
     b = [x for x in bindings if x['kind'] == 'import'][0]
     assert not in_domain(b) and rule_py(b) == 'W02' and b['name'] not in reads
     entries, _m, err = run_lint(text, 'k3.py', project)
@@ -968,7 +1058,7 @@ def run(ctx):
     from supp.project import Project
     proof_ok = ctx.coq_props()
     cov = ctx.coverage
-    cov['rule'] = ('generated valid modules (bindings of every kind x scope kind, a chosen subset never read) + hand-written '
+    cov['rule'] = ('generated valid modules (bindings of every kind x scope kind, identifiers reused across scopes with and without global/nonlocal, multi-path bindings, locals() calls in some scopes; a chosen subset never read) + hand-written '
                    'boundary modules + real files (stdlib/repo, ASCII, not reading `locals`): real lint W01/W02 entries vs '
                    '(I) Coq report/lint_unused on binding records from an independent ast pass, (twin) rule_py vs Coq rule, '
                    '(direct) multiset of entries on never-read identifiers == rule_py. A case = one binding; '
@@ -994,10 +1084,15 @@ def run(ctx):
             by_key.setdefault((entry_name(e), e[2], e[3]), []).append(e)
         unread_bs = []
         nread = 0
-        if ev['locals']:
-            ctx.histogram('file_status', 'ok but reads `locals`: only "nothing else reported" evaluated')
+        lscopes = ev['locals_scopes']
+        if lscopes:
+            ctx.histogram('file_status', 'ok, with locals() calls (their own scopes: only "nothing else reported")')
         for b in ev['bindings']:
-            unread = b['name'] not in reads and not ev['locals']
+            unread = b['name'] not in reads and b['scope'] not in lscopes
+            if b['name'] not in reads and b['scope'] in lscopes:
+                ctx.histogram('unread_in_locals_scope', b['kind'] + '/' + b['own'])
+            elif unread and lscopes:
+                ctx.histogram('unread_beside_locals_call', b['kind'] + '/' + b['own'])
             if not in_domain(b):
                 # shape of the open finding K3-C10: either the faithful model (defect) or the rule (repaired)
                 ctx.histogram('k3_like_bindings', origin)
@@ -1009,9 +1104,9 @@ def run(ctx):
                 continue
             obs = by_key.get((b['name'], b['line'], b['col']), [None])[0]
             key = (b['kind'], b['own'], b['parent'], b['name'], b['module'], b['glob'], b['gseen'], b['line'], b['col'], unread, obs)
-            if unread:
+            if b['name'] not in reads:
                 unread_bs.append(b)
-            else:
+            if not unread:
                 nread += 1
                 if cap_read is not None and nread > cap_read:
                     continue
@@ -1028,8 +1123,16 @@ def run(ctx):
         oodpos = {(b['name'], b['line'], b['col']) for b in ev['k3']}
         obs_unread = [e for e in ev['entries'] if entry_name(e) is not None and entry_name(e) not in reads
                       and (entry_name(e), e[2], e[3]) not in oodpos]
-        if len(unread_bs) <= 400 and not ev['locals']:
-            fterm = '(%s, %s)' % (coq_list([binding_term(b) for b in unread_bs]), coq_list([rep_term(e) for e in obs_unread]))
+        # entries at bindings of scopes that call locals() are judged per binding, not per file
+        lpos = {(b['name'], b['line'], b['col']) for b in unread_bs if b['scope'] in lscopes}
+        obs_unread = [e for e in obs_unread if (entry_name(e), e[2], e[3]) not in lpos]
+        dense = {}
+        for sc in [b['scope'] for b in unread_bs] + sorted(lscopes):
+            dense.setdefault(sc, len(dense))
+        if len(unread_bs) <= 400 and len(dense) < 4000:
+            fterm = '(%s, %s, %s)' % (coq_list([binding_term(dict(b, scope=dense[b['scope']])) for b in unread_bs]),
+                                      coq_list(['%d%%nat' % dense[sc] for sc in sorted(lscopes)]),
+                                      coq_list([rep_term(e) for e in obs_unread]))
             file_cases.append((fterm, {'origin': origin, 'file': filename, 'source': text if keep_source else None}))
         for what, detail in ev['problems']:
             nviol[0] += 1
@@ -1049,7 +1152,7 @@ def run(ctx):
         handle(text, 'hand%d.py' % i, project, 'hand')
 
     # ---- generated modules -----------------------------------------------------------------------
-    ngen = ctx.pick(120, 3000)
+    ngen = ctx.pick(200, 3000)
     for i in range(ngen):
         text = gen_module(ctx.rng)
         ev = handle(text, 'gen%d.py' % i, project, 'generated')
@@ -1081,7 +1184,7 @@ def run(ctx):
     bad_b = ctx.run_cases(['Model.Lint'], PRELUDE, 'check_binding', [t for t, _ in binding_cases],
                           case_type='binding * bool * option rep * option code', shard=400)
     bad_f = ctx.run_cases(['Model.Lint'], PRELUDE, 'check_file', [t for t, _ in file_cases],
-                          case_type='list binding * list rep', shard=60)
+                          case_type='list binding * list nat * list rep', shard=60)
     bad_o = ctx.run_cases(['Model.Lint'], PRELUDE, 'check_ood', [t for t, _ in ood_cases],
                           case_type='binding * option rep', shard=400) if ood_cases else []
     cov['out_of_domain_cases'] = len(ood_cases)
